@@ -118,7 +118,12 @@ func (r *RegexpFs) OpenFile(name string, flag int, perm os.FileMode) (File, erro
 	if err := r.dirOrMatches(name); err != nil {
 		return nil, err
 	}
-	return r.source.OpenFile(name, flag, perm)
+	f, err := r.source.OpenFile(name, flag, perm)
+	if err != nil {
+		return nil, err
+	}
+	// like Open: a directory opened this way must list through the filter too
+	return &RegexpFile{f: f, re: r.re}, nil
 }
 
 func (r *RegexpFs) Open(name string) (File, error) {
